@@ -151,6 +151,63 @@ def one_run(ctx, p, decisions=None, rng=None, items=None, tag="random", p_comple
     return ctl
 
 
+def lazy_duplicates(ctx):
+    """oracle only: the same expression reached a second time from the same parent in a lazily evaluated position (a cond / seq /
+    catch branch) that fires only after the first evaluation has finished - still one evaluation (`_pending_expr` keeps the entry
+    until the PARENT is finalized).  The task opts out of every cache, so a second Job would run the function again."""
+    import ctl_sched
+    from redun import task
+    from redun.functools import seq
+    from redun.scheduler import catch, cond
+    ctl_sched.quiet()
+    calls = []
+
+    @task(namespace="c06l", version="1", cache_scope="NONE")
+    def draw(k):
+        calls.append(k)
+        return len(calls)
+
+    @task(namespace="c06l", version="1")
+    def gate(x):
+        return True
+
+    @task(namespace="c06l", version="1")
+    def boom(x):
+        raise ValueError("boom")
+
+    @task(namespace="c06l", version="1")
+    def ident(x):
+        return x
+
+    @task(namespace="c06l", version="1")
+    def main(shape):
+        x = draw(1)
+        if shape == "cond":
+            return [x, cond(gate(x), x, 0)]
+        if shape == "cond-deep":
+            return [x, cond(gate(ident(x)), [x, ident(x)], 0)]
+        if shape == "seq":
+            return seq([x, gate(x), x])
+        if shape == "catch":
+            return [x, catch(boom(gate(x)), ValueError, ident.partial(x))]
+        return [x, x]
+
+    rng = ctx.rng
+    for shape in ("plain", "cond", "cond-deep", "seq", "catch"):
+        for k in range(ctx.n(3, 10)):
+            del calls[:]
+            c = ctl_sched.Ctl(rng=random.Random(rng.random()))
+            sched = ctl_sched.make_scheduler(c)
+            st, got = c.run(sched, main(shape))
+            ctx.case(key=("lazydup", shape, tuple(str(j.task.name) for j in c.completions)),
+                     sample={"shape": shape, "status": st, "draw_calls": len(calls), "result": repr(got)[:80]}, kind="lazy-duplicate", status=st)
+            if st == "ok" and len(calls) != 1:
+                ctx.violation("C06-expression-evaluated-twice-under-one-parent",
+                              "an expression reached again from the same parent after its first evaluation finished was evaluated a second time",
+                              case={"shape": shape, "completion_order": [str(j.task.name) for j in c.completions]},
+                              expected="draw executed once", actual=dict(draw_calls=len(calls), result=repr(got)[:200]), kind="schedule")
+
+
 _memo = []
 
 
@@ -203,6 +260,7 @@ def run(ctx):
     rng = ctx.rng
     items = []
     _opt_cache.clear()
+    lazy_duplicates(ctx)
     for defs, cfg in CORPUS:
         p = mk_prog(defs, cfg)
         for _ in sc.enumerate_schedules(lambda d: one_run(ctx, p, decisions=d, items=items, tag="corpus-exhaustive"),
